@@ -328,4 +328,9 @@ def run(ctx, rep):
     from rules.c11 import rule_cache, rule_stateless
     rule_cache(ctx, rep, rid="R-C15-current")
     rule_stateless(ctx, rep, rid="R-C15-stateless")
+    # spans are byte offsets into the pre-processed text but are applied to the original text: the pre-processor must keep every byte position
+    from rules import c05_blank
+    c05_blank.run(ctx, rep, rid="R-C15-blank")
+    from rules.c05 import rule_linecol
+    rule_linecol(ctx, rep, rid="R-C15-linecol")
     # R-C05-noop (column after a comment) is decided under C05
